@@ -58,6 +58,7 @@ SecRule REQUEST_HEADERS:x-do "@contains ctlAuditParts" "id:1024,phase:1,pass,ctl
 SecRule REQUEST_HEADERS:x-do "@contains ctlForceReqBody" "id:1025,phase:1,pass,ctl:forceRequestBodyVariable=On"
 SecRule REQUEST_HEADERS:x-do "@contains ctlRespAccess" "id:1026,phase:1,pass,ctl:responseBodyAccess=Off"
 SecRule REQUEST_HEADERS:x-do "@contains ctlDebugLevel" "id:1030,phase:1,pass,ctl:debugLogLevel=9"
+SecRule REQUEST_HEADERS:x-do "@contains ctlRespProcessor" "id:1031,phase:1,pass,ctl:responseBodyProcessor=JSON"
 SecRule REQUEST_HEADERS:x-do "@contains ctlRmId" "id:1027,phase:1,pass,ctl:ruleRemoveById=2001"
 SecRule REQUEST_HEADERS:x-do "@contains ctlRmRange" "id:1028,phase:1,pass,ctl:ruleRemoveById=2100-2199"
 SecRule REQUEST_HEADERS:x-do "@contains ctlRmTarget" "id:1029,phase:1,pass,ctl:ruleRemoveTargetById=2002;ARGS:a"
@@ -77,6 +78,7 @@ SecRule &TX:score "@gt 0" "id:2006,phase:2,pass,nolog"
 SecRule REQUEST_BODY "@contains x" "id:2007,phase:2,pass,nolog"
 SecRule MATCHED_VARS "@rx ." "id:2008,phase:1,pass,nolog"
 SecRule RESPONSE_BODY "@contains r" "id:2009,phase:4,pass,nolog"
+SecRule RES_BODY_ERROR|RES_BODY_PROCESSOR_ERROR|REQBODY_ERROR "@eq 1" "id:2013,phase:4,pass,nolog"
 SecAction "id:2101,phase:1,pass,nolog"
 SecAction "id:2102,phase:2,pass,nolog"
 SecAction "id:2103,phase:3,pass,nolog"
@@ -562,7 +564,7 @@ func c05Binding(run *vf.Run, text string, always map[string]bool) {
 		"ctlEngine": {"RuleEngine", "matchedRules", "detectionOnlyInterruption", "audit"}, "ctlReqAccess": {"RequestBodyAccess"},
 		"ctlReqLimit": {"RequestBodyLimit"}, "ctlAuditEngine": {"AuditEngine"}, "ctlAuditParts": {"AuditLogParts"},
 		"ctlForceReqBody": {"ForceRequestBodyVariable"}, "ctlRespAccess": {"ResponseBodyAccess"}, "ctlRmId": {"ruleRemoveByID"},
-		"ctlRmRange": {"ruleRemoveByIDRanges"}, "ctlDebugLevel": {"debugLogger"}, "ctlRmTarget": {"ruleRemoveTargetByID"}, "allow": {"AllowType"}, "allowRequest": {"AllowType"},
+		"ctlRmRange": {"ruleRemoveByIDRanges"}, "ctlDebugLevel": {"debugLogger"}, "ctlRespProcessor": {"variables"}, "ctlRmTarget": {"ruleRemoveTargetByID"}, "allow": {"AllowType"}, "allowRequest": {"AllowType"},
 		"skip": {"Skip"}, "skipAfter": {"SkipAfter"}, "spill": {"requestBodyBuffer", "variables"}, "respBody": {"responseBodyBuffer", "variables"},
 		"keepReader": {"requestBodyBuffer"}, "tfCache": {"transformationCache"}, "otherArgs": {"variables"},
 	}
